@@ -10,6 +10,8 @@
 # MIT License
 
 
+import math
+
 from ..logger import log
 from .event import DelayedEvent
 
@@ -80,8 +82,11 @@ class Scheduler:
             The event if this is not a DelayedEvent or the delay<=0 , otherwise None
         """
         if isinstance(event, DelayedEvent):
-            if event.delay > 0:
-                event.delay -= dt
+            # count whole steps: subtracting dt repeatedly drifts (1.0 - 10 * 0.1 > 0 in floating point),
+            # which delivered the event one step late
+            steps_left = math.ceil(round(event.delay / dt, 9))
+            if steps_left > 0:
+                event.delay = (steps_left - 1) * dt
                 self.delayed_events += [event]
                 return None
         return event
